@@ -7,8 +7,10 @@ import (
 
 	"google.golang.org/protobuf/proto"
 	"google.golang.org/protobuf/types/known/fieldmaskpb"
+	"google.golang.org/protobuf/types/known/timestamppb"
 
 	"github.com/smart-core-os/sc-api/go/traits"
+	"github.com/smart-core-os/sc-golang/internal/vt"
 	"github.com/smart-core-os/sc-golang/internal/vth"
 	"github.com/smart-core-os/sc-golang/pkg/resource"
 )
@@ -61,4 +63,40 @@ func VT_C07_BookingModel() {
 			}
 		},
 	})
+}
+
+// Check-in / check-out through the BookingApi server with a caller-supplied time: the caller may modify or reuse its
+// request (and the timestamp inside it) afterwards without affecting the stored bookings or messages read earlier.
+func VT_C07_BookingServerCheckIn() {
+	m := NewModel()
+	srv := NewModelServer(m)
+	ctx := context.Background()
+	b1, err := m.CreateBooking(&traits.Booking{Id: "b1", Bookable: "room", Title: "t"})
+	vt.Assert(err == nil, "create-succeeds")
+	_ = b1
+	checkOut := vt.Choose("checkOut", 2) == 1
+	ts := &timestamppb.Timestamp{Seconds: 100, Nanos: 5}
+	if checkOut {
+		_, err = srv.CheckOutBooking(ctx, &traits.CheckOutBookingRequest{BookingId: "b1", Time: ts})
+	} else {
+		_, err = srv.CheckInBooking(ctx, &traits.CheckInBookingRequest{BookingId: "b1", Time: ts})
+	}
+	vt.Assert(err == nil, "check-in-succeeds")
+	read := m.ListBookings()
+	vt.Assert(len(read) == 1, "one-booking")
+	if len(read) != 1 {
+		return
+	}
+	readCopy := proto.Clone(read[0]).(*traits.Booking)
+	vt.Freeze(read[0], "booking-read-after-check-in")
+	// the caller reuses its timestamp
+	ts.Seconds = 999
+	ts.Nanos = 0
+	vt.Assert(proto.Equal(read[0], readCopy), "earlier-read-unaffected-by-caller-modifying-its-request")
+	again := m.ListBookings()
+	if len(again) == 1 {
+		vt.Assert(proto.Equal(again[0], readCopy), "store-unaffected-by-caller-modifying-its-request")
+	}
+	vt.CheckFrozen()
+	vt.Reach("done")
 }
